@@ -74,18 +74,24 @@ Definition cstate (ts : list otuple) (lg : olog) : N :=
   fold_left centry lg (cadd (fold_left ctuple ts 0) 258).
 Definition len {A : Type} (l : list A) : N := N.of_nat (length l).
 Inductive rop :=
-| RW (cmd : bool) (od om : opt) (dels : list key) (wrs : list witem) (now : N) (fault : nat) (memp sqlp : bool)
+| RW (cmd : bool) (od om : opt) (dels : list key) (wrs : list witem) (now : N) (fault : nat) (memp sqlp : bool) (lost : option werr)
 | RH (typ : bytes) (now h : N).
 Fixpoint run (ops : list rop) (ms : mstate) (se : eng) : list N :=
   match ops with
   | [] => []
-  | RW cmd od om d w now fault memp sqlp :: rest =>
-      let '(mr, ms') := if cmd then mem_cmd_write od om d w now ms else mem_write od om d w now ms in
+  | RW cmd od om d w now fault memp sqlp lost :: rest =>
+      let '(mr, ms') := match lost with
+                        | Some e => cmd_wrap (fun _ _ _ _ st => (WErr e, st)) od om d w ms
+                        | None => if cmd then mem_cmd_write od om d w now ms else mem_write od om d w now ms
+                        end in
       let ms2 := if memp then ms' else ms in
       let mnums := if memp then [code mr; len (obs_tuples ms'); len (obs_log ms'); cstate (obs_tuples ms') (obs_log ms')] else [] in
       let '(sr, se', tr) :=
-        if cmd then (let '(r, e) := sql_cmd_write_c od om d w now se in (r, e, @nil skind))
-        else sql_write_c od om d w now fault se in
+        match lost with
+        | Some e => (let '(r, e') := cmd_wrap (fun _ _ _ _ st => (WErr e, st)) od om d w se in (r, e', @nil skind))
+        | None => if cmd then (let '(r, e) := sql_cmd_write_c od om d w now se in (r, e, @nil skind))
+                  else sql_write_c od om d w now fault se
+        end in
       let se2 := if sqlp then se' else se in
       let t' := en_comm se' in
       let snums := if sqlp then [code sr; len (sql_obs_tuples t'); len (sql_obs_log t'); cstate (sql_obs_tuples t') (sql_obs_log t'); len tr] else [] in
@@ -127,10 +133,12 @@ def main(rec, dump, maxc, name):
         terms = []
         for op in ops:
             if op[0] == 0:
-                _, mode, od, om, tick, fault, dels, wrs, om_v, os_v = op
-                terms.append("RW %s %s %s %s %s %s %d%%nat %s %s" % (
+                _, mode, od, om, tick, fault, dels, wrs, om_v, os_v = op[:10]
+                flav = op[10] if len(op) > 10 else 0
+                lost = "None" if flav < 4 else ("(Some EConflictDelete)" if flav == 4 else "(Some EConflictInsert)")
+                terms.append("RW %s %s %s %s %s %s %d%%nat %s %s %s" % (
                     boolc(mode == 0), opt(od), opt(om), lst([key(*d) for d in dels]), lst([witem(w) for w in wrs]),
-                    N(tick), fault, boolc(om_v[0] != 0), boolc(os_v[0] != 0)))
+                    N(tick), fault, boolc(om_v[0] != 0), boolc(os_v[0] != 0), lost))
             elif op[0] == 1:
                 _, now, h, typ = op[0], op[1], op[2], op[3]
                 terms.append("RH %s %s %s" % (byts(typ), N(now), N(h)))
